@@ -279,6 +279,9 @@ def specs_for(ctx, n):
         nd = [3, 2, 3][i % 3]
         out.append(plotgen.random_spec(ctx.rng, ndims=nd, nf=nf, data="bits", B=1 if thin else 2,
                                        nblk=[3, 2, 2][:nd] if thin else None, repeats=(i % 5 == 4)))
+        if i % 7 in (1, 4) and min(out[-1]["grid0"]) >= 2:
+            # index space reaching below zero (first cell of the domain negative, last one >= 0)
+            out[-1]["idx_shift"] = -ctx.rng.randint(1, min(out[-1]["grid0"]) - 1)
     return out
 
 
